@@ -111,6 +111,13 @@ def cases(tier, seed):
         out.append({"dir": "ul", "n": n, "style": ("seg_s", "seg_nos")[n % 2], "plan": (None, [3], [1, 6, 2, 7])[n % 3] if n < 3000 else None,
                     "od": "absent", "mode": ("upload", "b1024:all", "raw", "b7:3+all")[(n // 2) % 4], "pred": "none",
                     "addr": list(ADDRS[(k + seed) % len(ADDRS)]), "seed": seed, "fill": simenv.FILLS[(n // 3) % len(simenv.FILLS)]})
+    # fewer bytes written than the size announced to open() (1..4, i.e. an expedited transfer): the with-block either
+    # fails or the server has exactly the bytes that were written - they do not vanish
+    for size in (2, 3, 4):
+        for w in range(1, size):
+            for buffering in (0, 2, 7, 1024):
+                out.append({"dir": "short", "size": size, "written": w, "buf": buffering, "seed": seed,
+                            "addr": list(ADDRS[(size + w + seed) % len(ADDRS)])})
     # empty write() calls between the chunks
     for n in range(0, 17):
         for api in ("open_size", "open_nosize", "open_size_force"):
@@ -537,10 +544,45 @@ def run_accessor(case, st):
             st.violation(f"C01:accessor:raises:{type(e).__name__}:{api}", rc, "transfer through the accessor", repr(e)[:150])
 
 
+def run_short(case, st):
+    size, w, seed = case["size"], case["written"], case.get("seed", 0)
+    idx, sub = case["addr"]
+    data = simenv.pattern(w, seed + 3)
+    for pieces in ([w], [1] * w):
+        node, srv, bus = make()
+        srv.expected_mux = bytes([idx & 0xFF, idx >> 8, sub])
+        st.evaluations += 1
+        st.nontrivial_n += 1
+        rc = dict(case, pieces=pieces)
+        err = None
+        try:
+            with _no_spin(), node.sdo.open(idx, sub, "wb", size=size, buffering=case["buf"]) as fp:
+                off = 0
+                for k in pieces:
+                    fp.write(data[off:off + k])
+                    off += k
+        except Exception as e:  # noqa: BLE001
+            err = e
+        got = srv.store.get((idx, sub))
+        if err is not None:
+            st.outcome("short: fails visibly")
+            if got is not None and got != data:
+                st.violation("C01:short:failed-but-stored-other-bytes", rc, f"nothing or {data.hex()}", got.hex())
+        elif got != data or len(srv.commits) != 1:
+            st.violation("C01:short:returns-normally-without-delivery", rc, f"an exception, or {data.hex()} at the server",
+                         f"stored={None if got is None else got.hex()} commits={len(srv.commits)} frames={srv.frames}")
+        else:
+            st.outcome("short: written bytes delivered")
+            for code, fr, txt in srv.violations[:1]:
+                st.violation("C01:short:frame:" + code, rc, "legal CiA 301 request", f"{fr}: {txt}")
+
+
 def run_case(case, st):
     global ALL_COMPOSITIONS_UP_TO
     ALL_COMPOSITIONS_UP_TO = case.get("allsplits", 9)
-    if case["dir"] == "acc":
+    if case["dir"] == "short":
+        run_short(case, st)
+    elif case["dir"] == "acc":
         run_accessor(case, st)
     elif case["dir"] == "dl":
         run_download(case, st)
